@@ -276,6 +276,11 @@ pub struct DistributedSchemeManager {
 impl DistributedSchemeManager {
     fn register_printer(&mut self, target: Target) -> u32 {
         if !self.printers.contains_key(&target) {
+            // The index is written in the program as a character, the frame tag: step over the
+            // surrogate range, which holds no characters
+            if (0xD800..0xE000).contains(&self.var_index) {
+                self.var_index = 0xE000;
+            }
             let index = self.var_index;
             self.printers.insert(target.clone(), index);
 
